@@ -86,6 +86,27 @@ def gen(rng, quick, api_scripts=()):
             ops.append({"op": "ed.add", "in": ["R0", "R1"], "out": "R2"})
             ops.append({"op": "ed.eq", "in": ["R0", "R1"]})
 
+    # 2b. boundary representations: x with an all-ones / zero / 2^50 limb, so that negation and the serial<->vector
+    #     conversions see limbs at exactly 2^51 and carries across every limb position
+    ops.append({"op": "reset"})
+    for i in range(5):
+        for val in ((1 << 51) - 1, 0, 1 << 50, (1 << 26) - 1, ((1 << 25) - 1) << 26):
+            pt = pyed.point_with_limb_pattern(rng, i, val)
+            if pt is None:
+                continue
+            c = pyed.compress(pt)
+            ops.append({"op": "ed.decompress", "in": [c], "out": "R0"})
+            ops.append({"op": "ed.decompress", "in": [c[:31] + [c[31] ^ 0x80]], "out": "R1"})
+            ops.append({"op": "ed.neg", "in": ["R0"], "out": "R2"})
+            ops.append({"op": "ed.eq", "in": ["R1", "R2"]})
+            ops.append({"op": "ed.add", "in": ["R0", "R2"], "out": "R3"})
+            s = le(rng.randrange(L))
+            for r in ("R0", "R1", "R2"):
+                ops.append({"op": "ed.mul", "in": [r, s], "out": "R4"})
+                ops.append({"op": "ed.vartime_double_scalar_mul_basepoint", "in": [s, r, le(rng.randrange(L))], "out": "R4"})
+            ops.append({"op": "ed.multiscalar_mul", "scalars": [s, le(3)], "points": ["R1", "R2"], "out": "R4"})
+            ops.append({"op": "ed.vartime_multiscalar_mul", "scalars": [s, le(3)], "points": ["R1", "R2"], "out": "R4"})
+
     # 3. long mixed chains over a register pool (histories)
     for chain in range(2 * N):
         ops.append({"op": "reset"})
